@@ -12,7 +12,7 @@
   Models: `Lumina/Model/Merkle.lean` (MerkleProof), `Lumina/Model/RowProof.lean` (RowProof, DAH hash,
   row_proof), `Lumina/Model/ShareProof.lean` (ShareProof over `Lumina/Model/Nmt.lean`).
 -/
-import Lumina.Proofs.C13
+import Lumina.Proofs.C13Share
 
 namespace Lumina.Props.C13
 open Lumina.Util Lumina.Model.Merkle Lumina.Proofs.Merkle Lumina.Proofs.C13
@@ -215,6 +215,122 @@ theorem rowproof_verifyOrig_counterexample :
       specRowVerify termFns [] (rowObsOf rp) (some .empty)
         (rowResOf (Lumina.Model.RowProof.verifyOrig termFns rp (some .empty))) = false := by
   decide
+
+/-! ## ShareProof -/
+
+open Lumina.Model.ShareProof (ShareProof) in
+/-- **share proofs fail if any proven root, share or inner node is altered or the counts do not
+    match** — for every share proof, every square and every data root.
+
+    PARTIAL in one respect only: the binding of the proven shares to the square (last conjunct of
+    `specShareVerify`) rests on the hypothesis `NmtBinds h w sq all` — "`all` are the NMT roots of the
+    axes of `sq`, and an nmt-rs range proof accepted against such a root, for a range inside the
+    axis, proves exactly that range under its namespace".  That is the range-proof soundness of
+    nmt-rs for perfect trees, which belongs to group D's NMT model (`Lumina/Proofs/Nmt.lean` has the
+    single-leaf case `checkRangeProof_single_sound`; the general-range lemma is not proved yet).
+    Everything else (one presence proof with non-empty range per row root, share count = sum of the
+    ranges, the whole row-proof property, the wiring of each share group to the row root proven at
+    the merkle proof's index) is proved here with only the collision-freeness of the DAH tree hash. -/
+theorem shareproof_verify_sound_partial [DecidableEq D] (H : HashFns D) (h : Lumina.Model.Nmt.HashFn)
+    (hinj : InnerInj H) (hleaf : LeafInj H) (w : Nat) (sq all : List Bytes) (hn : NmtBinds h w sq all)
+    (sp : ShareProof D) (rt : Option D) (hb : ∀ p ∈ sp.rowProof.proofs, p.total ≤ 2 ^ 63) :
+    specShareVerify H w sq all (shareObsOf sp) rt
+      (shareResOf (Lumina.Model.ShareProof.verify H h sp rt)) = true := by
+  unfold Lumina.Model.ShareProof.verify Lumina.Model.ShareProof.verifyWith
+  by_cases h1 : sp.shareProofs.length ≠ sp.rowProof.rowRoots.length
+  · simp [h1, specShareVerify, shareResOf]
+  · rw [if_neg h1]
+    cases hs : Lumina.Model.ShareProof.sharesNeeded 0 sp.shareProofs with
+    | error o =>
+      have := sharesNeeded_error_ne_ok sp.shareProofs 0
+      cases o <;> simp_all [specShareVerify, shareResOf]
+    | ok needed =>
+      simp only
+      by_cases h2 : needed ≠ sp.data.length
+      · simp [h2, specShareVerify, shareResOf]
+      · rw [if_neg h2]
+        have hrow := rowproof_verify_sound H hinj hleaf all sp.rowProof rt hb
+        cases hr : Lumina.Model.RowProof.verify H sp.rowProof rt with
+        | panic => simp [specShareVerify, shareResOf]
+        | err e => simp [specShareVerify, shareResOf]
+        | ok =>
+          rw [hr] at hrow
+          simp only
+          cases hl : Lumina.Model.ShareProof.rangeLoop h sp.namespaceId sp.data sp.shareProofs sp.rowProof.rowRoots with
+          | panic => simp [specShareVerify, shareResOf]
+          | err e => simp [specShareVerify, shareResOf]
+          | ok =>
+            obtain ⟨ha, hsum⟩ := sharesNeeded_ok sp.shareProofs 0 needed hs
+            simp only [ne_eq, Decidable.not_not] at h1 h2
+            have hrow' : specRowVerify H all (rowObsOf sp.rowProof) rt .ok = true := hrow
+            simp only [specShareVerify, shareResOf, shareObsOf, List.length_map, Bool.and_eq_true, beq_iff_eq,
+              Bool.or_eq_true, Bool.not_eq_true']
+            refine ⟨⟨⟨⟨?_, ha⟩, by omega⟩, hrow'⟩, ?_⟩
+            · simpa [rowObsOf] using h1
+            · by_cases hc : (rt == some (treeRoot H all) &&
+                  (rowObsOf sp.rowProof).proofs.all (fun p => p.total == all.length)) = true
+              · right
+                simp only [Bool.and_eq_true, beq_iff_eq, List.all_eq_true] at hc
+                obtain ⟨hrt, htot⟩ := hc
+                -- the row-proof spec gives the binding of every proven root
+                simp only [specRowVerify, Bool.and_eq_true, Bool.or_eq_true, Bool.not_eq_true',
+                  beq_eq_false_iff_ne, ne_eq] at hrow'
+                obtain ⟨⟨⟨⟨_, hlr⟩, hlp⟩, _⟩, hbind⟩ := hrow'
+                have hbind' : bindsAll H all sp.rowProof.rowRoots (sp.rowProof.proofs.map obsOf) = true := by
+                  cases hbind with
+                  | inl hne => exact absurd hrt hne
+                  | inr hbd => exact hbd
+                have htot' : ∀ p ∈ sp.rowProof.proofs, p.total = all.length := by
+                  intro p hp
+                  have := htot (obsOf p) (by simp only [rowObsOf]; exact List.mem_map_of_mem hp)
+                  simpa [obsOf] using this
+                have hlen : sp.rowProof.rowRoots.length = sp.rowProof.proofs.length := by
+                  simp only [rowObsOf, List.length_map, beq_iff_eq] at hlr hlp
+                  omega
+                exact slicesBound_of_ok H h w sq all hn sp.namespaceId sp.shareProofs sp.rowProof.rowRoots
+                  sp.rowProof.proofs sp.data hl hbind' htot' h1 hlen
+              · left
+                simpa using hc
+
+/-- the unconditional part: whatever the NMT is, an accepted share proof has one presence range
+    proof with a non-empty range per proven row root, exactly as many shares as the ranges add up
+    to, and an accepted row proof (hence all of `rowproof_verify_sound`) -/
+theorem shareproof_verify_structure [DecidableEq D] (H : HashFns D) (h : Lumina.Model.Nmt.HashFn)
+    (sp : Lumina.Model.ShareProof.ShareProof D) (rt : Option D)
+    (hv : Lumina.Model.ShareProof.verify H h sp rt = .ok) :
+    sp.shareProofs.length = sp.rowProof.rowRoots.length ∧
+    (∀ p ∈ sp.shareProofs, p.isAbsence = false ∧ p.start < p.end_) ∧
+    ((sp.shareProofs.map (fun p => p.end_ - p.start)).sum = sp.data.length) ∧
+    Lumina.Model.RowProof.verify H sp.rowProof rt = .ok := by
+  unfold Lumina.Model.ShareProof.verify Lumina.Model.ShareProof.verifyWith at hv
+  by_cases h1 : sp.shareProofs.length ≠ sp.rowProof.rowRoots.length
+  · simp [h1] at hv
+  · rw [if_neg h1] at hv
+    cases hs : Lumina.Model.ShareProof.sharesNeeded 0 sp.shareProofs with
+    | error o =>
+      have := sharesNeeded_error_ne_ok sp.shareProofs 0
+      rw [hs] at hv this; cases o <;> simp at hv this
+    | ok needed =>
+      rw [hs] at hv
+      simp only at hv
+      by_cases h2 : needed ≠ sp.data.length
+      · simp [h2] at hv
+      · rw [if_neg h2] at hv
+        cases hr : Lumina.Model.RowProof.verify H sp.rowProof rt with
+        | panic => rw [hr] at hv; simp at hv
+        | err e => rw [hr] at hv; simp at hv
+        | ok =>
+          obtain ⟨ha, hsum⟩ := sharesNeeded_ok sp.shareProofs 0 needed hs
+          simp only [ne_eq, Decidable.not_not] at h1 h2
+          refine ⟨h1, ?_, ?_, rfl⟩
+          · intro p hp
+            simp only [List.all_eq_true, List.mem_map, forall_exists_index, and_imp,
+              forall_apply_eq_imp_iff₂, Bool.and_eq_true, Bool.not_eq_true', decide_eq_true_eq] at ha
+            exact ha p hp
+          · simp only [List.map_map] at hsum
+            have : (fun p => p.end_ - p.start) ∘ nobsOf = fun (p : Lumina.Model.Nmt.NsProof) => p.end_ - p.start := rfl
+            rw [this] at hsum
+            omega
 
 /-! ## non-vacuity -/
 
